@@ -545,7 +545,10 @@ def model_request(g, model, text: str, start: str | None, settings: Settings, se
     rules_sx = []
     for name, decorators, e in g['rules']:
         r = opt.rulemap[name]
-        rules_sx.append(f'(rule {int(bool(r.is_tokn))} {int(bool(r.is_name))} {int(bool(r.no_memo))} '
+        # @name / @nomemo are what the grammar TEXT says (docs/syntax.rst), not what the implementation made of it
+        is_name = bool(r.is_name) if 'name' not in decorators and 'isname' not in decorators else True
+        no_memo = bool(r.no_memo) if 'nomemo' not in decorators else True
+        rules_sx.append(f'(rule {int(bool(r.is_tokn))} {int(is_name)} {int(no_memo)} '
                         f'{int(bool(r.is_lrec))} {int(bool(r.memoizable))} {exp_sx(e, names, tabs)})')
     ws = 'none' if eff.whitespace is None else f'(some {tabs.pid(eff.whitespace)})'
     cm = 'none' if eff.comments is None else f'(some {tabs.pid(eff.comments)})'
